@@ -12,7 +12,12 @@ Generated (Hypothesis supplies four 64-bit words per case; a splitmix64 decoder 
            frequency), 1 in 12 lies between the physical range and the guards (1e-17..1e-12, 1e2..1e8: consistency
            clauses only).  The instance is obtained through a random alias / capitalisation of `find_rheology` and,
            in 1 case of 4, by `change_args` from different arguments.
-  array    length 1..3000 (so that prange really splits), 1..16 OpenMP threads set at run time with
+  array    length 1..3000 (so that prange really splits) and, about 10 per quick run, long arrays: 2^k + {-1,0,1,3} for
+           k = 12..21 or anywhere in (2^20, 3 x 2^20] - lengths around and beyond plausible internal block / chunk sizes;
+           fixed per run: 2^16+1, 2^20, 2^20+1, 2^21+3 for both helpers and two models (thorough: 12 lengths, all models).
+           Arrays longer than 3000 index a pool of 4096 independent draws pseudo-randomly, so the reference needs 4096
+           scalar calls and the comparison is still element-wise and bit-exact over all n outputs (output buffer
+           pre-filled with NaN: an element that is never written differs too).  1..16 OpenMP threads set at run time with
            omp_set_num_threads of the libgomp the extension is linked against (prange has no num_threads clause, so
            the team size is the OpenMP ICV; the number of OS threads of the process is read back from /proc to prove
            the team really had that size; when it cannot be confirmed - no libgomp, prange removed, other runtime - the
@@ -69,6 +74,9 @@ Sensitivity (tools/mut.py on the generated C, `-- --cases 4000 --shards 4`, 9-25
   base.c    frequency passed through a shared static volatile written and read    MISSED by one call per case; CAUGHT since every
             back in the next instruction (race window ~1 ns)                    array case repeats the call 25x under the same team
                                                                                 (consistent/vectorize_not_reproducible, 1..25 of 25)
+  seeded/C07-4 (wrappers work in blocks of 2^20; vectorize_frequency keeps writing to &output[0]): MISSED while array
+            lengths stopped at 3000, CAUGHT by the long-array cases (consistent/vectorize_frequency: elements beyond
+            2^20 never written, head overwritten), lengths <= 2^20 and vectorize_modulus_viscosity still pass
   MISSED (stated, not hidden): base.c `firstprivate/lastprivate(i)` clause removed - gcc -O3 keeps i in a register, the
   recompiled binary behaves identically (equivalent mutant at the machine level).
 """
@@ -120,7 +128,7 @@ MAX_N = 3 * 2 ** 20 + 8
 RULE = ('Hypothesis draws four 64-bit words per case, decoded into: model (7), w in 10^[-12,2] (or a guard edge / out-of-range '
         'value), mu in 10^[3,13], eta in 10^[0,30] (half of the cases tied to w tau in 10^[-2,2]), alpha in (0.02,0.98), zeta in '
         '10^[-3,3], Voigt scales in 10^[-2,2], lookup alias, optional change_args history; array cases: helper, length 1..3000, '
-        '1..16 OpenMP threads. A scalar case is non-trivial when 0.01 < w tau < 100 inside the physical range (both parts of M '
+        '1..16 OpenMP threads (about 1 array case in 30 is long: 2^k+-few for k=12..21, or in (2^20, 3*2^20], built by indexing 4096 independent draws). A scalar case is non-trivial when 0.01 < w tau < 100 inside the physical range (both parts of M '
         'significant; for Elastic/Newton/Voigt: any in-range case with all three inputs not powers of ten); an array case when '
         'length >= 2 x threads and threads >= 2 (prange really splits); distinct = distinct case hash.')
 ASSUMPTIONS = ['laws: Maxwell J=1/mu-i/(eta w); Voigt M=mu_v+i w eta_v; Burgers J_M+1/M_v; Andrade J_M+(1/mu)Gamma(1+a)(i w tau zeta)^-a; '
